@@ -87,6 +87,7 @@ static Str pickName(Rng& r, const Features& f, const char* prefix, int idx, bool
 
 static Str textWithSpecials(Rng& r, const Features& f, const char* base) {
     Str s = base;
+    if (r.chance(1, 8)) { static const char* const pct[] = { "%d", "%s", "100%", "%%", "%s%s%s", "%08x" }; s += pct[r.below(6)]; }      // text is text: nothing in it is a format
     if (f.special_xml && r.chance(3, 4)) {
         static const char* const bits[] = { "&", "<", ">", "\"", "'", "\n", "\r", "\r\n", "&lt;", "<b>", "]]>", "&#13;", "\t", "a&&b", "\"q\"", "\xc3\xa9", "\xe2\x82\xac" };      // the last two: valid multi-byte UTF-8
         int n = (int)r.range(1, 4);
@@ -240,7 +241,7 @@ void generate(uint64_t seed, const Str& profile, Desc& d, bool exceptions) {
             }
         }
         if (f.overflowPtr && world.chance(1, 12)) {           // push one test over the 32-entry table
-            int ph = (int)world.below(3); int n = (int)world.range(28, 40);
+            int ph = (int)world.below(3); int n = (int)world.range((int)MAX_SET - 4, (int)MAX_SET + 8);      // around the library's own limit
             Vec<Op> extra;
             for (int i = 0; i < n; i++) { Op o; o.kind = K_PTR_SET; o.phase = ph; o.d = ++opLine; o.a = (int64_t)world.below(N_TARGETS); o.b = (int64_t)world.below(N_VALUES); extra.push_back(o); }
             // insert before the first op of a later phase (ops are kept ordered by phase)
